@@ -249,6 +249,12 @@ impl<'a> Parser<'a> {
                     }
                 }
                 Some(_) => {
+                    // every member after the first must be preceded by a comma
+                    quiet_assert(
+                        object.is_empty() || trailing_comma,
+                        self.traceback(ParseError::InvalidToken),
+                    )?;
+
                     trailing_comma = false;
                     let string_start = self.next()?;
                     quiet_assert(
